@@ -142,6 +142,8 @@ func checkC16(p *Prog, r *Report) {
 	monotoneCounterRule(p, ls, r, "R11", F("HeartbeatManager.heartBeatNum"))
 	// the ticker period is derived by reading the announced timeout text back: reader and producer must be exact (shared with C19-R14/R15)
 	c19Round6(p, r, "", "R12", "R13")
+	// the refresh carries a current timestamp: the textual form written is the instant read back (shared with C19-R1)
+	timestampLayoutRule(p, r, "R14")
 	r.Rule("R5", "the ticker period is the timeout handed to the loop or that timeout minus a non-negative constant under a guard 'timeout > constant' (never more than the timeout); the timeout handed over is the announced heartbeat timeout")
 	r.Rule("R6", "the refresh loop has a case receiving from its stop channel that returns; every tick refreshes the data through SetData of the local feature with a freshly drawn counter and the announced timeout")
 	c16Loop(p, ls, r)
